@@ -285,6 +285,7 @@ func (x *Exec) builtin(name string, call *ast.CallExpr, env *Env) []Term {
 			if len(call.Args) > 2 {
 				c := x.eval(call.Args[2], env)
 				x.safetyCheck(env, "make", types.ExprString(call.Args[2]), Cmp(">=", c, n))
+				x.allocBudget(call, c, env)
 			}
 			so := x.W.SortOf(t)
 			r := x.W.MkSeq(so, ConstArray(ArraySort(SInt, x.W.SortOf(u.Elem())), x.zero(u.Elem())), IntLit(0), n)
